@@ -7,6 +7,24 @@ CHECKS = {
    text="Every combination of prefix length 0..128, 8 base bit patterns, 13 block distances around 2^32/2^63/2^64/end-of-space, 3 in-block offsets and both argument orders is executed on the real Offset/AddPrefixes and compared with exact big-integer arithmetic; complete windows of 301 consecutive block indices across the 64-bit and 128-bit carries. Exhaustive over the carry/borrow/shift shapes, not over all 2^128 values.",
    note="Trusts math/big as reference. Values outside the listed alphabets are not explored."),
 }
+
+ALLOC_NOTE = "State key reads the bitmap through hook VerifBits; verdicts only use Allocate/Free return values and a math/big geometry. Pools limited to <=16 blocks in graphs, <=257 in sweeps."
+CHECKS["C04"] = dict(level="model_checking", engine="E1", ref="5/C04",
+   technique="explicit-state BFS to fixpoint over the real allocator (every transition executes Allocate/Free on a fresh instance), ghost set of outstanding blocks as oracle",
+   text="For every pool of the alphabet (IPv4 ranges of 1-4 addresses incl. one ending at 255.255.255.255; IPv6 pools of 1-8 blocks on both sides of the 64-bit boundary, ::/0 and the top of the address space) the complete reachable state graph under {Allocate with no hint / a hint on every block / hints outside, Free of every outstanding block} is explored to fixpoint on the real code; on every transition a successful Allocate must not return a block in the ghost set of outstanding blocks. Merged states are re-executed from a second path (differential oracle).",
+   note=ALLOC_NOTE)
+CHECKS["C05"] = dict(level="model_checking", engine="E1", ref="5/C05",
+   technique="explicit-state BFS to fixpoint with the full hint-shape alphabet + exhaustive linear fill sweeps over pool geometries, against a math/big geometry reference",
+   text="Same graphs as C04 with every hint shape (lengths 0, page-1, page, page+1, 128; 4-byte and 16-byte IPs; nil and 32-bit-wide masks; unaligned addresses); every successful allocation is checked for pool membership, alignment and length, every failure for 'all N outstanding', ErrNoAddrAvail and unchanged state. Sweeps fill 18 IPv4 ranges (sizes 1..257 incl. 63/64/65, clipped at 255.255.255.255) and ~300 IPv6 geometries (pool lengths 0..127 x 2^1..2^8 blocks x 5 bases) to exhaustion, free first/middle/last and refill.",
+   note=ALLOC_NOTE)
+CHECKS["C06"] = dict(level="model_checking", engine="E1", ref="5/C06",
+   technique="explicit-state BFS to fixpoint with foreign Free operations in the alphabet; reference: Free succeeds iff an outstanding block contains the prefix",
+   text="C04 graphs extended with Free of every block whether held or not, sub-prefixes (/page+1, /128) of every block, and prefixes 1, 2, N, N+1 and 2^16 blocks below the pool base and above its end. Oracle on every transition: nil error iff the prefix lies inside a ghost-outstanding block, then exactly that block is released; otherwise the bitmap is unchanged; the C04 disjointness oracle keeps running so a wrong Free also shows as the double allocation it causes.",
+   note=ALLOC_NOTE + " Super-prefix frees and mismatched IP/mask widths are outside the stated domain.")
+CHECKS["C07"] = dict(level="model_checking", engine="E1", ref="5/C07",
+   technique="explicit-state BFS to fixpoint; every Allocate(hint naming a free block) transition in every reachable state checked, plus word-boundary hint families",
+   text="On every transition of the C05 graphs whose hint names a currently free block (IPv4 4-/16-byte forms; IPv6 hints at block base, base+1, last address; nil / 32-bit masks) the returned block must be exactly that block. Word-boundary family: pools of 63/64/65 (thorough: 127..257) blocks with everything held except j, for every j next to a 64-bit bitmap word boundary, and hints on a sparse pool.",
+   note=ALLOC_NOTE)
 ALL = ["C%02d" % i for i in range(1, 21)]
 NA_REASON = "check not built yet in this session (planned, see DESIGN.md section 5); will be claimed once its machinery exists"
 m = {
@@ -20,7 +38,7 @@ m = {
   "add_only": True,
  },
  "engines": [
-  {"name": "E1 explicit-state BFS over real handlers", "path": "mc/explore", "serves_properties": [], "kind_free_text": "explicit-state model checking where every transition is an execution of the real code on a fresh instance (replay of the shortest path + 1 op); state key = hook dump + observer ghost"},
+  {"name": "E1 explicit-state BFS over real handlers", "path": "mc/explore", "serves_properties": ["C04","C05","C06","C07"], "kind_free_text": "explicit-state model checking where every transition is an execution of the real code on a fresh instance (replay of the shortest path + 1 op); state key = hook dump + observer ghost"},
   {"name": "E2 cooperative scheduler + preemption-bounded DFS", "path": "mc/sched + mc/verifsched + mc/cmd/instr", "serves_properties": [], "kind_free_text": "stateless model checking of the implementation: sync replaced by a shim through go build -overlay, Yield() injected before every statement, all schedules up to a preemption bound"},
   {"name": "E3 bounded-exhaustive enumerator vs reference model", "path": "mc/checks/*", "serves_properties": ["C20"], "kind_free_text": "complete cross product of small per-dimension alphabets executed on the real code and compared with a reference written from the property text"},
  ],
